@@ -344,28 +344,31 @@ theorem inFuncRest_size (S : Sem V) (st st' : St V) (f t n : Tok)
     · split at h
       · simp only [Outcome.ok.injEq] at h
         rw [← h]; omega
-      · cases hfl : flushToSep S true f opft1 opfd1 st.args with
-        | err => rw [hfl] at h; cases h
-        | panic => rw [hfl] at h; cases h
-        | ok r2 =>
-          obtain ⟨opft2, opfd2, args2⟩ := r2
-          have l1 := flushToSep_len S true f _ _ _ _ _ _ hfl
-          rw [hfl] at h
-          simp only at h
-          cases opfd2 with
-          | nil =>
-            simp only [Outcome.ok.injEq] at h
-            rw [← h]; unfold size at hs1 ⊢; simp only [List.length_nil] at l1 ⊢; omega
-          | cons v rest =>
+      · split at h
+        · simp only [Outcome.ok.injEq] at h
+          rw [← h]; omega
+        · cases hfl : flushToSep S true f opft1 opfd1 st.args with
+          | err => rw [hfl] at h; cases h
+          | panic => rw [hfl] at h; cases h
+          | ok r2 =>
+            obtain ⟨opft2, opfd2, args2⟩ := r2
+            have l1 := flushToSep_len S true f _ _ _ _ _ _ hfl
+            rw [hfl] at h
             simp only at h
-            cases hp : pushArg v args2 with
-            | ok a' =>
-              rw [hp] at h
+            cases opfd2 with
+            | nil =>
               simp only [Outcome.ok.injEq] at h
-              have := pushArg_len _ _ _ hp
-              rw [← h]; unfold size at hs1 ⊢; simp only [List.length_cons] at l1 ⊢; omega
-            | err => rw [hp] at h; cases h
-            | panic => rw [hp] at h; cases h
+              rw [← h]; unfold size at hs1 ⊢; simp only [List.length_nil] at l1 ⊢; omega
+            | cons v rest =>
+              simp only at h
+              cases hp : pushArg v args2 with
+              | ok a' =>
+                rw [hp] at h
+                simp only [Outcome.ok.injEq] at h
+                have := pushArg_len _ _ _ hp
+                rw [← h]; unfold size at hs1 ⊢; simp only [List.length_cons] at l1 ⊢; omega
+              | err => rw [hp] at h; cases h
+              | panic => rw [hp] at h; cases h
     · cases hc : curArr ({ st with opfd := opfd1, opft := opft1 } : St V) with
       | none =>
         rw [hc] at h
